@@ -26,6 +26,8 @@ type hnode struct {
 	typ       el.NodeType
 	closeErr  bool
 	reopenErr bool
+	wrapped   bool
+	bypassed  int
 	mu        sync.Mutex
 	closed    int
 	reopened  int
@@ -42,7 +44,21 @@ func (n *hnode) Process(ctx context.Context, e *el.Event) (*el.Event, error) {
 	// Send visits every node of every registered pipeline whatever its type
 	return e, nil
 }
+
+// Reopen called on the node as registered. When the node is registered behind a wrapper, the Broker must call the
+// WRAPPER's Reopen (the registered node), not dig out the inner node: a direct call on a wrapped node is not counted.
 func (n *hnode) Reopen() error {
+	n.mu.Lock()
+	if n.wrapped {
+		n.bypassed++
+		n.mu.Unlock()
+		return nil
+	}
+	n.mu.Unlock()
+	return n.reopenCounted()
+}
+
+func (n *hnode) reopenCounted() error {
 	n.mu.Lock()
 	n.reopened++
 	fail := n.reopenErr
@@ -62,7 +78,15 @@ type wrapNode struct {
 func (w *wrapNode) Process(ctx context.Context, e *el.Event) (*el.Event, error) {
 	return w.inner.Process(ctx, e)
 }
-func (w *wrapNode) Reopen() error     { return w.inner.Reopen() }
+func (w *wrapNode) Reopen() error {
+	switch t := w.inner.(type) {
+	case *wrapNode:
+		return t.Reopen()
+	case *hnode:
+		return t.reopenCounted()
+	}
+	return w.inner.Reopen()
+}
 func (w *wrapNode) Type() el.NodeType { return w.inner.Type() }
 func (w *wrapNode) Unwrap() el.Node   { return w.inner }
 
@@ -75,7 +99,7 @@ type nilWrapNode struct {
 func (p *nilWrapNode) Process(ctx context.Context, e *el.Event) (*el.Event, error) {
 	return p.h.Process(ctx, e)
 }
-func (p *nilWrapNode) Reopen() error     { return p.h.Reopen() }
+func (p *nilWrapNode) Reopen() error     { return p.h.reopenCounted() }
 func (p *nilWrapNode) Type() el.NodeType { return p.h.Type() }
 func (p *nilWrapNode) Unwrap() el.Node   { return nil }
 
@@ -87,7 +111,7 @@ type plainNode struct {
 func (p *plainNode) Process(ctx context.Context, e *el.Event) (*el.Event, error) {
 	return p.h.Process(ctx, e)
 }
-func (p *plainNode) Reopen() error     { return p.h.Reopen() }
+func (p *plainNode) Reopen() error     { return p.h.reopenCounted() }
 func (p *plainNode) Type() el.NodeType { return p.h.Type() }
 
 func hnodeOf(n el.Node) *hnode {
@@ -318,8 +342,10 @@ func (w *world) apply(op Op, closeFails map[int]bool) Obs {
 		var node el.Node = h
 		switch op.Wrap {
 		case 1:
+			h.wrapped = true
 			node = &wrapNode{inner: h}
 		case 2:
+			h.wrapped = true
 			node = &wrapNode{inner: &wrapNode{inner: h}}
 		case 3:
 			node = &plainNode{h: h}
@@ -601,6 +627,22 @@ func genTypeSeq(e *emitter, maxLen int, variants bool) {
 				all := append(append([]Op{}, ops...), pre...)
 				all = append(all, Op{K: "regpipe", Pid: 1, Ety: 1, IDs: ids}, Op{K: "regpipe", Pid: 1, Ety: 2, IDs: ids}, Op{K: "regpipe", Pid: 2, Ety: 1, IDs: ids})
 				e.emit(Case{Gen: "typeseq-existing", Types: []int{1, 2}, Ops: all})
+			}
+		}
+		if variants && len(seq) >= 2 && len(seq) <= 4 && seq[len(seq)-1] == 3 && (seq[len(seq)-2] == 2 || seq[len(seq)-2] == 4) {
+			// a well-formed pipeline is registered; then one of its node ids is re-registered with another node type and the
+			// SAME definition is registered again: it must be validated against the nodes registered now
+			for pos := 0; pos < len(seq); pos++ {
+				for t := 1; t <= 5; t++ {
+					if t == seq[pos] {
+						continue
+					}
+					ops, ids := base()
+					ops = append(ops, Op{K: "regpipe", Pid: 1, Ety: 1, IDs: ids},
+						Op{K: "regnode", ID: pos + 1, Obj: len(seq) + 1, Ty: t},
+						Op{K: "regpipe", Pid: 1, Ety: 1, IDs: ids})
+					e.emit(Case{Gen: "typeseq-retype", Types: []int{1, 2}, Ops: ops})
+				}
 			}
 		}
 		if len(seq) < maxLen {
